@@ -157,6 +157,24 @@ def rand_float_bits(rng, w):
     return rng.getrandbits(w)
 
 
+def rand_finite_float_bits(rng, w):
+    from xv.c23_ref import f_is_nan, f_is_inf
+    while True:
+        b = rand_float_bits(rng, w)
+        if not f_is_nan(b, w) and not f_is_inf(b, w):
+            return b
+
+
+def const_float_bits(rng, w):
+    """Bits for a float *constant*: xDSL keeps FloatAttr payloads as python floats (doubles), so a signalling NaN
+    narrower than f64 is quieted by the attribute itself (not by the backend): constants avoid narrow sNaNs."""
+    from xv.c23_ref import f_is_snan, FMT
+    b = rand_float_bits(rng, w)
+    if w < 64 and f_is_snan(b, w):
+        b |= 1 << (FMT[w][1] - 1)
+    return b
+
+
 def int_lit(v, w):
     """Text of an integer literal for the bit pattern v of width w (signless attr accepts [-2^(w-1), 2^w))."""
     return str(v)
@@ -265,14 +283,16 @@ class FB:
             return self.emit("const", t, [], {"val": v}, txt, pool=pool)
         if isinstance(t, FloatT):
             if v is None:
-                v = rand_float_bits(rng, t.w)
+                v = const_float_bits(rng, t.w)
             return self.emit("const", t, [], {"val": v}, f"llvm.mlir.constant({const_text(v, t)}) : {t.mlir}", pool=pool)
         if isinstance(t, VecT):
             if v is None:
                 if isinstance(t.e, IntT):
                     v = tuple(rand_int(rng, t.e.w) for _ in range(t.n)) if rng.random() < 0.8 else (rand_int(rng, t.e.w),) * t.n
                 else:
-                    v = tuple(rand_float_bits(rng, t.e.w) for _ in range(t.n))
+                    # finite elements only: xDSL's parser reads a hex literal inside dense<[...]> of floats as an
+                    # integer value (a parser defect owned by C04/C06), so NaN/inf lanes are built with insertelement
+                    v = tuple(rand_finite_float_bits(rng, t.e.w) for _ in range(t.n))
             return self.emit("const", t, [], {"val": v}, f"llvm.mlir.constant({const_text(v, t)}) : {t.mlir}", pool=pool)
         if isinstance(t, PtrT):
             return self.emit("zero", t, [], {}, f"llvm.mlir.zero : {t.mlir}", pool=pool)
@@ -683,13 +703,13 @@ def alloca(self, elem=None, count=None, align=None):
     attr = f" {{alignment = {align} : i64}}" if align else ""
     p = self.emit("alloca", PTR, [c], {"elem": elem, "align": align},
                   f"llvm.alloca {c} x {elem.mlir}{attr} : ({ct.mlir}) -> !llvm.ptr", {"opc": "alloca", "align": align})
-    self.alloca_scopes[-1].append((p, elem, count, max(layout(elem)[1], align or 1)))
+    self.alloca_scopes[-1].append((p, elem, count, align or layout(elem)[1]))
     return p
 
 
 @_fb_method
 def global_objects(self):
-    return [(None, g.ty, 1, max(layout(g.ty)[1], g.align or 1), g) for g in self.mg.mod.globals]
+    return [(None, g.ty, 1, g.align or layout(g.ty)[1], g) for g in self.mg.mod.globals]
 
 
 @_fb_method
@@ -1310,7 +1330,7 @@ class MG:
                 g = GlobalDef(name, t, v, const, linkage, align, f"{v} : {t.mlir}")
             elif r < 0.55 and self.flt:
                 t = rng.choice(FLOATS)
-                v = rand_float_bits(rng, t.w)
+                v = const_float_bits(rng, t.w)
                 g = GlobalDef(name, t, v, const, linkage, align, f"{float_lit(v, t.w)} : {t.mlir}")
             elif r < 0.8:
                 et = rng.choice([I8, I16, I32, I64] + (FLOATS if self.flt else []))
@@ -1346,7 +1366,7 @@ class MG:
             entry = (i == nf - 1) or rng.random() < 0.6
             args, ret = self.rand_sig(entry)
             name = f"f{i}" if rng.random() < 0.85 else rng.choice(["fn.with.dots", "has space", "q\"uote", "back\\slash", "λ", "0digit", "$dollar"]) + str(i)
-            cconv = rng.choice(CCONVS) if (self.calls and rng.random() < 0.25) else "ccc"
+            cconv = rng.choice(CCONVS[1:]) if (self.calls and rng.random() < 0.06) else "ccc"
             linkage = rng.choice(["", "", "internal", "private"]) if not entry else ""
             fb = FB(self, name, [(f"%a{k}", t) for k, t in enumerate(args)], ret, cconv, linkage)
             self.mod.funcs.append(fb.f)
